@@ -117,7 +117,11 @@ fn opt_to_value(mode: &PivotMode, n: usize, opt: u32) -> usize {
 pub const MAX_DRAWS: usize = 200_000;
 pub const RUNAWAY: &str = "pivot-draw budget exceeded (more draws than 4 n^2 + 256 for the largest remainder length n seen): the routine does not terminate under this pivot sequence";
 
-fn chooser(n: usize, _drawn: usize) -> usize {
+fn chooser(n: usize, drawn: usize) -> usize {
+    // the index the routine itself drew from its generator is replaced, but it must have been a valid one
+    if drawn >= n {
+        panic!("the routine drew the pivot index {} for a remainder of length {}", drawn, n);
+    }
     SCRIPT.with(|s| {
         let mut s = s.borrow_mut();
         if !s.active {
